@@ -33,7 +33,7 @@ impl Deserializer {
         requires old(self).wf() ensures frame(*old(self), *final(self)) { unimplemented!() }
 }
 // the library's error type: only Ok/Err-ness matters; conversions as in error.rs
-pub enum Key { Str(String), Uint(u64) }
+pub enum Key { Str(String), Uint(u64), OptUint(Option<u64>) }
 pub enum DeserializeFailure {
     EndingBreakMissing, CBOR(CborError), CustomError(String), ExpectedNull, ExpectedBool, NoVariantMatched,
     DuplicateKey(Key), UnknownKey(Key), BreakInDefiniteLen, MandatoryFieldMissing(Key), UnexpectedKeyType(CBORType),
